@@ -653,6 +653,25 @@ class EnsembleSys(System):
                 ctx.count("family_%s_ensemble_alarms" % fam)
             if any(v is not None for v in vals):
                 ctx.count("family_%s_member_alarms" % fam)
+            styles = cfg.get("styles") or {}
+            for k in states:
+                if cfg["selectors"].get(k) is not None:
+                    ctx.count("selector_style_%s" % styles.get(k, "closure"))
+            if cfg.get("labels"):
+                ctx.count("label_style_%s" % cfg["labels"])
+            if cfg.get("omit_selectors"):
+                ctx.count("ensemble_built_without_column_selectors")
+            classes = [type(d) for d in state["ens"].detectors.values()]
+            if len(set(classes)) < len(classes):
+                ctx.count("same_class_twice_updates")
+                if len({states[k] for k in states if type(state["ens"].detectors[k]) is classes[0]}) > 1:
+                    ctx.count("same_class_members_in_different_states")
+            if len(classes) == 1:
+                ctx.count("single_member_updates")
+                if got != vals[0]:
+                    ctx.count("single_member_ensemble_differs_from_its_member")
+            if any(sorted(c) != list(c) for c in cfg["selectors"].values() if c):
+                ctx.count("reversed_order_subset_updates")
         ctx.count("verdict_%s_%s" % (ekind, TAG[got]))
         if got is not None:
             ctx.mark()
@@ -1016,6 +1035,29 @@ REQUIRED = [
     "set_reference_fanout_members", "set_reference_changed_every_member", "set_reference_after_updates",
     "set_reference_through_selectors",
 ]
+# round 3: only counters that cannot depend on VERIF_SEED (event counts; alarms of the deterministic members ADWIN / DDM /
+# PageHinkley).  Alarms of the batch members (all of them draw random numbers) are reported, not demanded.
+REQUIRED_R3 = (
+    ["family_%s_updates" % f for f in (
+        "factory", "viewcopy", "overlap", "somesel", "dfnamed", "sameclass", "single", "cref", "labels", "shared")]
+    + ["family_%s_member_alarms" % f for f in (
+        "factory", "viewcopy", "overlap", "somesel", "dfnamed", "sameclass", "single", "labels", "shared")]
+    + ["family_%s_ensemble_alarms" % f for f in ("factory", "viewcopy", "sameclass", "single", "labels", "shared")]
+    + ["selector_style_%s" % s for s in ("loop", "partial", "object", "method", "view", "view1d", "copy", "loc", "filter", "to_numpy")]
+    + ["label_style_%s" % s for s in ("bool", "npint", "npbool", "array1", "list1", "array0d", "batch_arrays", "batch_bools", "batch_columns")]
+    + ["ensemble_built_without_column_selectors", "same_class_twice_updates", "same_class_members_in_different_states",
+       "single_member_updates", "single_member_ensemble_differs_from_its_member", "reversed_order_subset_updates",
+       "shared_election_partner_updates", "shared_election_ensembles_disagree", "shared_election_partner_drift"]
+)
+_REQUIRED_BASE = REQUIRED
+
+
+def REQUIRED(tier):  # noqa: F811 - the list above stays the pre-round-3 requirement
+    if ROUND3 == "off":
+        return list(_REQUIRED_BASE)
+    if ROUND3 == "only":
+        return list(REQUIRED_R3)
+    return list(_REQUIRED_BASE) + list(REQUIRED_R3)
 
 
 def describe(tier):
@@ -1039,6 +1081,16 @@ def describe(tier):
             "selector_variants_per_mix": 2,
             "configurations": {"Stream": len(configs(tier, "Stream")), "Batch": len(configs(tier, "Batch"))},
             "member_parameters": "checks/c12.py FACTORY (small windows/thresholds so members alarm within the bound)",
+            "round3": {
+                "families": {f: [c["id"] for sysn in ("Stream", "Batch") for c in extra_configs(sysn) if c["family"] == f] for f in FAMILIES},
+                "depth": XDEPTH[tier],
+                "depth_rule": "stream_cheap: no stochastic member; a configuration's depth_delta is added (single-member and one "
+                "factory / shared configuration are one deeper); batch depths include the initial set_reference; same alphabets as above",
+                "selector_styles": ["closure (pre-round-3)", "loop: default-argument lambdas from one loop", "partial", "object (callable class)",
+                                    "method (bound)", "view (basic slice / .iloc)", "view1d (1-D column view / Series)", "copy", "loc", "filter", "to_numpy"],
+                "label_styles": ["int (pre-round-3)", "bool", "npint", "npbool", "array1", "list1", "array0d", "batch_arrays", "batch_bools", "batch_columns"],
+                "shared": "second ensemble over fresh members of the same kinds, sharing the stateless election object, updated with row (k+1) mod 3 after every update(row k)",
+            },
         },
         "explanation": "states = distinct canonical states (members, election, counters); traces_validated_against_impl = "
         "maximal event sequences on which every member was compared with its solo twin after every event",
@@ -1051,5 +1103,13 @@ def describe(tier):
             "an exception raised by the ensemble is accepted only if a member run alone raises the identical exception",
             "not every mix x election x selector x container combination is explored: each mix meets every election type, "
             "both containers and both selector variants (rotating design)",
+            "round 3: the solo twin of a member whose selector returns a view / Series / to_numpy() array receives the same kind of "
+            "object, produced by the harness's own slicing of a separately built container (never by the selector objects the "
+            "ensemble holds)",
+            "round 3: label arguments are rebuilt for every call (ensemble and each twin get their own equal objects); batch members "
+            "document y_true / y_pred as unused, so batch label arrays are arbitrary; LinearFourRates gets 0/1 int-likes only",
+            "round 3: two ensembles share an election object only for the stateless elections (pure functions of the member list); "
+            "sharing a ConfirmedElection (per-position counters) and nesting an ensemble inside an ensemble are not documented and "
+            "are left out",
         ],
     }
